@@ -1,8 +1,8 @@
 #!/bin/sh
-# tools/seedcheck.sh <id> <k> [tier]: confirm a sub-agent's seeded change /tmp/seedwork/out-<id>/patch<k>.diff + demo<k>.py
+# tools/seedcheck.sh <id> <k> [tier]: confirm a sub-agent's seeded change $SEEDWORK/out-<id>/patch<k>.diff + demo<k>.py
 # (demo passes on the clean tree, patch applies, test suite unchanged, demo fails with the patch) and run our check on it.
 id=$1; k=$2; tier=${3:-quick}
-out=/tmp/seedwork/out-$id
+out=${SEEDWORK:-/tmp/seedwork}/out-$id
 d=/dev/shm/odml-seed-$$
 git -C /repo worktree add -q --detach $d HEAD || exit 2
 trap 'git -C /repo worktree remove --force '$d' 2>/dev/null' EXIT
